@@ -169,3 +169,28 @@ void h_drive(void) {
   __CPROVER_assert(0, "SENTINEL reachable");
 }
 #endif
+/* MOVE-ONLY payload through callback_await (drivers/c18_drive.cpp, c18_drive_mo): the completion sees THE value object (tag, not moved-from), may move
+ * it out; when everything is over every mo_item instance created on the way is gone (source husk, the future's value, the moved-out object) and
+ * exactly one of them died carrying the value - the one that held it last. */
+#ifdef DRIVE_cbawait_mo
+void h_drive(void) {
+  int in_v = nondet_unsigned(), in_e = nondet_unsigned(), in_outcome = nondet_unsigned(); __CPROVER_assume(in_outcome <= 2 && in_v >= 0);
+  int v = in_v, e = in_e, outcome = in_outcome;
+  int before = DRIVE_BEFORE, take = DRIVE_TAKE;
+  __CPROVER_assume(*MO_LIVE < (1u << 30) && *MO_DEAD < (1u << 30));
+  unsigned a0 = gh_allocs, f0 = gh_frees, l0 = *MO_LIVE, d0 = *MO_DEAD;
+  c18_drive_mo(outcome, before, take, v, e);
+  __CPROVER_assert(cv_exc_pending == 0, "no exception escapes");
+  __CPROVER_assert(G_MREC->calls == 1, "the callback runs exactly once per awaited operation");
+  __CPROVER_assert(G_MREC->calls_at_return == (before ? 1 : 0), "already resolved at registration: the callback has run when callback_await returns; otherwise it has not run yet");
+  if (outcome == 0) __CPROVER_assert(G_MREC->has_value == 1 && G_MREC->tag == v && G_MREC->moved == 0 && G_MREC->exc_canceled + G_MREC->exc_error + G_MREC->exc_other == 0, "value outcome: the callback receives the operation's value object: its tag, not moved-from");
+  if (outcome == 0 && take) __CPROVER_assert(G_MREC->took_tag == v && G_MREC->took_moved == 0, "value outcome: the object the callback moved out carries the value");
+  if (outcome == 1) __CPROVER_assert(G_MREC->has_value == 0 && G_MREC->exc_error == 1 && G_MREC->exc_code == e && G_MREC->exc_canceled + G_MREC->exc_other == 0, "exception outcome: await_result rethrows exactly the operation's exception");
+  if (outcome == 2) __CPROVER_assert(G_MREC->has_value == 0 && G_MREC->exc_canceled == 1 && G_MREC->exc_error + G_MREC->exc_other == 0, "dropped promise: await_result rethrows await_canceled_exception");
+  __CPROVER_assert(gh_allocs - a0 == 1 && gh_frees - f0 == 1, "exactly one heap block (the coroutine frame) is allocated and it is released exactly once");
+  __CPROVER_assert(*MO_LIVE == l0, "every value object created on the way is destroyed exactly once (none leaked, none destroyed twice)");
+  if (outcome == 0) __CPROVER_assert(*MO_DEAD - d0 == 1 && *MO_DEAD_TAG == v, "value outcome: exactly one object died carrying the value - the one that held it last");
+  else __CPROVER_assert(*MO_DEAD == d0, "no value: no value object died");
+  __CPROVER_assert(0, "SENTINEL reachable");
+}
+#endif
